@@ -226,3 +226,60 @@ Definition presented_spec (stored : ikind -> bytes) (i : inst) : bytes :=
   | KAuth, Some p => p
   | k, _ => stored k
   end.
+
+(* ---- the token as DELIVERED: wiring of channels and filters in server Run ----
+   server/honeytrap.go Run: for every [[filter]] section in order, for every channel name
+   it lists that is a configured channel (others are skipped with an error message):
+   channel = TokenChannel(channel, hc.token), then a category filter around it when the
+   section has categories, then bus.Subscribe.  EventBus.Send hands an event to every
+   subscriber in subscription order.  Channels and categories are numbered; a category
+   expression is a name (no meta characters, no name contained in another), so it matches
+   exactly the events of that category; `services` expressions are not modelled.
+   An event that reaches a subscription whose channel is not wrapped keeps whatever
+   token field it has ([ev_tok], normally none). *)
+Record filt := mkFilt { fl_chans : list N; fl_cats : list N }.
+Record subscription := mkSub { su_chan : N; su_cats : list N; su_wrapped : bool }.
+
+Definition memN (x : N) (l : list N) : bool := existsb (N.eqb x) l.
+
+Definition wire (defined : list N) (fs : list filt) : list subscription :=
+  flat_map (fun f => map (fun c => mkSub c (fl_cats f) true)
+                         (filter (fun c => memN c defined) (fl_chans f))) fs.
+
+Definition sub_matches (s : subscription) (cat : N) : bool :=
+  match su_cats s with [] => true | cs => memN cat cs end.
+
+(* (channel, token field of the event as it arrives there), in delivery order *)
+Definition deliver (tok ev_tok : bytes) (subs : list subscription) (cat : N) : list (N * bytes) :=
+  map (fun s => (su_chan s, if su_wrapped s then tok else ev_tok))
+      (filter (fun s => sub_matches s cat) subs).
+
+(* ---- starts that fail ----
+   cmd/honeytrap/main.go applies WithConfig, WithDataDir, WithToken in this order;
+   WithDataDir -> storage.SetDataDir -> MustDB: when badger.Open fails (another process
+   holds the directory lock, a transient error) the process ends with log.Fatal - before
+   WithToken and before any service constructor, hence before any write. *)
+Definition attempt (open_fails : bool) (f : fresh) (d : disk) (cfg : list svc) : list disk * option identity :=
+  if open_fails then ([], None)
+  else let '(t, id) := start f d cfg in (t, Some id).
+
+Record hstep := mkStep { hs_open_fails : bool; hs_fresh : fresh; hs_cfg : list svc }.
+
+(* identities of the starts that completed, in order; the disk after the whole history *)
+Fixpoint runs_h (d : disk) (h : list hstep) : list identity :=
+  match h with
+  | [] => []
+  | s :: r =>
+      let '(t, oid) := attempt (hs_open_fails s) (hs_fresh s) d (hs_cfg s) in
+      match oid with
+      | Some id => id :: runs_h (last_or t d) r
+      | None => runs_h (last_or t d) r
+      end
+  end.
+Fixpoint after_h (d : disk) (h : list hstep) : disk :=
+  match h with
+  | [] => d
+  | s :: r => after_h (last_or (fst (attempt (hs_open_fails s) (hs_fresh s) d (hs_cfg s))) d) r
+  end.
+Definition completed_steps (h : list hstep) : list (fresh * list svc) :=
+  flat_map (fun s => if hs_open_fails s then [] else [(hs_fresh s, hs_cfg s)]) h.
